@@ -2,7 +2,7 @@
 From Coq Require Import ExtrOcamlBasic.
 From Coq Require Extraction.
 From Coq Require Import NArith List.
-From Muscle Require Import Gen.Consts Cont.StrL0 Cont.StrModel.
+From Muscle Require Import Gen.Consts Cont.StrL0 Cont.StrModel Cont.StrSpec.
 Definition c17_M : N := c_STRING_MAX_SHORT_LENGTH.
 Definition c17_TH : N := c_string_small_growth_threshold.
 Definition c17_PG : N := c_string_page_size.
